@@ -160,9 +160,66 @@ def run(ctx, R, tier):
                         why or 'expected child-track, sound, effect and send calls in Track::process, found %s' % sorted(names_found),
                         detail={'dominated': sorted(names_found)}, where=pb.where(gate))
 
+    remove_rule(F, R)
+
+    # ---- both storages holding Tracks remove with should_be_removed
+    npred = 0
+    for owner, fn in (('backend::resources::mixer::Mixer', 'on_start_processing'), (TRACK, 'on_start_processing')):
+        b = F.body('%s::%s' % (owner, fn))
+        if not R.check(b is not None, 'B.C12.pred', 'anchor:' + owner, 'not found'):
+            continue
+        ra = [(bb, t) for bb, t in calls_to(b, 'ResourceStorage::<T>::remove_and_add')
+              if (self_field_of_call(b, t, 0) or '').endswith('sub_tracks')]
+        if not R.check(len(ra) == 1, 'B.C12.pred', owner + ':site', 'no remove_and_add on sub_tracks in %s' % b.path):
+            continue
+        npred += 1
+        hit = [c for c in F.closures_of(b.path) if calls_to(c, TRACK + '::should_be_removed')]
+        R.check(len(hit) == 1, 'B.C12.pred', owner,
+                '%s removes sub-tracks with a predicate that does not call Track::should_be_removed' % owner,
+                detail='sub_tracks.remove_and_add(|t| t.should_be_removed())', where=b.where(ra[0][0]))
+    R.floor('B.C12.pred', npred, 2)
+
+    # ---- "removes the track at the next callback": every storage is swept on every path of every callback (the C08 rule)
+    from . import c08
+    c08.sweep(F, R)
+
+    # ---- a pause and a resume issued between the same two callbacks: the track polls them in the order both kinds of sound
+    # do (pause, then resume), so the later resume is what remains
+    from .c09 import reader_sequence
+    tb = F.body(TRACK + '::on_start_processing')
+    rd = None
+    if tb is not None:
+        for bb, t in tb.calls():
+            cb = F.body(callee_path(t) or '')
+            if cb is not None and cb.krate == 'kira' and any((callee_path(tt) or '') == 'command::CommandReader::<T>::read' for _, tt in cb.calls()):
+                rd = cb
+        if rd is None and any((callee_path(tt) or '') == 'command::CommandReader::<T>::read' for _, tt in tb.calls()):
+            rd = tb
+    if R.check(rd is not None, 'B.C12.cmd-order', 'anchor', 'the function in which Track polls its pause / resume readers was not found'):
+        q = [x for x in reader_sequence(rd) if x in ('pause', 'resume')]
+        R.check(q == ['pause', 'resume'], 'B.C12.cmd-order', 'pause-then-resume',
+                'Track polls its life-cycle readers in the order %s; static and streaming sounds poll pause, then resume' % q,
+                detail={'order': q}, where=rd.file)
+
+    # ---- handles mark removal on drop
+    nd = 0
+    for h in ('track::sub::handle::TrackHandle', 'track::sub::spatial_handle::SpatialTrackHandle',
+              'track::send::handle::SendTrackHandle'):
+        b = F.body('<%s as std::ops::Drop>::drop' % h)
+        if not R.check(b is not None, 'B.C08.drop', 'anchor:' + h, 'no Drop impl for %s: dropping the handle would not remove the track' % h):
+            continue
+        nd += 1
+        R.check(bool(calls_to(b, 'TrackShared::mark_for_removal')), 'B.C08.drop', h,
+                'Drop for %s does not mark the track for removal' % h, detail='drop -> mark_for_removal')
+    R.floor('B.C08.drop', nd, 3)
+
+
+def remove_rule(F, R, rule='B.C12.remove'):
+    """The removal predicate of a track: never while a descendant track is alive; otherwise by the handle flag, and for a
+    persisting track additionally only once its sounds are gone."""
     # ---- removal predicate
     rb = F.body(TRACK + '::should_be_removed')
-    if R.check(rb is not None, 'B.C12.remove', 'anchor', 'should_be_removed not found'):
+    if R.check(rb is not None, rule, 'anchor', 'should_be_removed not found'):
         prs = [p for p in explore(rb) if p.end == 'return']
         ok = True
         why = ''
@@ -209,11 +266,11 @@ def run(ctx, R, tier):
         if seen_persist != {True, False}:
             ok = False
             why = why or 'persist_until_sounds_finish is not branched on'
-        R.check(ok, 'B.C12.remove', 'path-predicate', why, detail={'paths': len(prs)}, where=rb.file)
+        R.check(ok, rule, 'path-predicate', why, detail={'paths': len(prs)}, where=rb.file)
         ie = F.body('backend::resources::ResourceStorage::<T>::is_empty')
-        if R.check(ie is not None, 'B.C12.remove', 'anchor:is_empty', 'ResourceStorage::is_empty not found'):
+        if R.check(ie is not None, rule, 'anchor:is_empty', 'ResourceStorage::is_empty not found'):
             rets = [str(p.ret) for p in explore(ie) if p.end == 'return']
-            R.check(rets == ['atomic_arena::Arena::<T>::is_empty(&(*self).resources)'], 'B.C12.remove', 'is_empty',
+            R.check(rets == ['atomic_arena::Arena::<T>::is_empty(&(*self).resources)'], rule, 'is_empty',
                     'ResourceStorage::is_empty returns %s, not whether its arena is empty' % rets, detail={'returns': rets})
         # the any() closure negates the recursive call
         cl = [c for c in F.closures_of(rb.path)]
@@ -226,38 +283,6 @@ def run(ctx, R, tier):
                     okc = all(r is not None and r.startswith('Not(') and 'should_be_removed' in r for r in rets)
                 elif forms == {'all'}:
                     okc = all(r is not None and r.startswith(TRACK + '::should_be_removed(') for r in rets)
-        R.check(okc, 'B.C12.remove', 'children', 'the child test is not `!sub_track.should_be_removed()`',
+        R.check(okc, rule, 'children', 'the child test is not `!sub_track.should_be_removed()`',
                 detail='any(|t| !t.should_be_removed())  (or !all(|t| t.should_be_removed()))')
 
-    # ---- both storages holding Tracks remove with should_be_removed
-    npred = 0
-    for owner, fn in (('backend::resources::mixer::Mixer', 'on_start_processing'), (TRACK, 'on_start_processing')):
-        b = F.body('%s::%s' % (owner, fn))
-        if not R.check(b is not None, 'B.C12.pred', 'anchor:' + owner, 'not found'):
-            continue
-        ra = [(bb, t) for bb, t in calls_to(b, 'ResourceStorage::<T>::remove_and_add')
-              if (self_field_of_call(b, t, 0) or '').endswith('sub_tracks')]
-        if not R.check(len(ra) == 1, 'B.C12.pred', owner + ':site', 'no remove_and_add on sub_tracks in %s' % b.path):
-            continue
-        npred += 1
-        hit = [c for c in F.closures_of(b.path) if calls_to(c, TRACK + '::should_be_removed')]
-        R.check(len(hit) == 1, 'B.C12.pred', owner,
-                '%s removes sub-tracks with a predicate that does not call Track::should_be_removed' % owner,
-                detail='sub_tracks.remove_and_add(|t| t.should_be_removed())', where=b.where(ra[0][0]))
-    R.floor('B.C12.pred', npred, 2)
-
-    # ---- "removes the track at the next callback": every storage is swept on every path of every callback (the C08 rule)
-    from . import c08
-    c08.sweep(F, R)
-
-    # ---- handles mark removal on drop
-    nd = 0
-    for h in ('track::sub::handle::TrackHandle', 'track::sub::spatial_handle::SpatialTrackHandle',
-              'track::send::handle::SendTrackHandle'):
-        b = F.body('<%s as std::ops::Drop>::drop' % h)
-        if not R.check(b is not None, 'B.C08.drop', 'anchor:' + h, 'no Drop impl for %s: dropping the handle would not remove the track' % h):
-            continue
-        nd += 1
-        R.check(bool(calls_to(b, 'TrackShared::mark_for_removal')), 'B.C08.drop', h,
-                'Drop for %s does not mark the track for removal' % h, detail='drop -> mark_for_removal')
-    R.floor('B.C08.drop', nd, 3)
